@@ -18,7 +18,7 @@ from abc import ABCMeta
 import logging
 import re
 import sys
-from collections.abc import Callable, Iterator
+from collections.abc import Callable, Generator, Iterator
 from functools import cached_property
 from operator import attrgetter
 from pathlib import Path
@@ -1262,10 +1262,12 @@ class XMLSchemaBase(XsdValidator, ElementPathMixin[Union[SchemaType, XsdElement]
         option to `True` to activate dynamic schema loading using schema location hints.
         :raises: :exc:`XMLSchemaValidationError` if the XML data instance is invalid.
         """
-        for error in self.iter_errors(source, path, schema_path, use_defaults,
-                                      namespaces, max_depth, extra_validator,
-                                      validation_hook, allow_empty, use_location_hints,
-                                      validation='strict'):
+        errors = cast(Generator[XMLSchemaValidationError, None, None], self.iter_errors(
+            source, path, schema_path, use_defaults, namespaces, max_depth, extra_validator,
+            validation_hook, allow_empty, use_location_hints, validation='strict'
+        ))
+        for error in errors:
+            errors.close()  # don't leave a lazy resource locked by the suspended iteration
             raise error
 
     def is_valid(self, source: Union[XMLSourceType, XMLResource],
@@ -1339,88 +1341,94 @@ class XMLSchemaBase(XsdValidator, ElementPathMixin[Union[SchemaType, XsdElement]
             selector = resource.iter_depth(mode=4, ancestors=ancestors)
 
         elem: Optional[Element] = None
-        for elem in selector:
-            if elem is resource.root:
-                if resource.lazy_depth:
-                    context.level = 0
-                    context.identities = {}
-                    context.max_depth = resource.lazy_depth
-            else:
-                if prev_ancestors != ancestors:
-                    k = 0
-                    for k in range(min(len(ancestors), len(prev_ancestors))):
-                        if ancestors[k] is not prev_ancestors[k]:
-                            break
-
-                    path_ = f"{'/'.join(e.tag for e in ancestors)}/ancestor-or-self::node()"
-                    try:
-                        xsd_ancestors = cast(list[XsdElement],
-                                             schema.findall(path_, namespaces)[1:])
-                    except ElementPathError:
-                        xsd_ancestors = []  # names of the XML data not usable in a path
-
-                    # Clear identity constraints counters
-                    for k, e in enumerate(xsd_ancestors[k:], start=k):
-                        if k >= len(ancestors):
-                            break  # more matches for a step, e.g. a group referred twice
-                        if not isinstance(e, XsdElement):
-                            continue  # an ancestor matched by a wildcard has no identities
-                        for identity in e.identities:
-                            if identity in identities:
-                                identities[identity].reset(ancestors[k])
-                            else:
-                                identities[identity] = identity.get_counter(ancestors[k])
-
-                    prev_ancestors = ancestors[:]
-
-            if root_by_name and elem is resource.root:
-                # The root matches its global declaration, not the
-                # declaration of a child that has the same name
-                xsd_element = schema.get_element(elem.tag, namespaces=namespaces)
-            else:
-                xsd_element = schema.get_element(elem.tag, schema_path, namespaces)
-            if xsd_element is None:
-                if nm.XSI_TYPE in elem.attrib:
-                    xsd_element = self.builders.create_element(elem.tag, self)
-                elif elem is not resource.root and ancestors:
-                    # Maybe matched by a wildcard, of a namespace that is loaded on demand
-                    namespace = get_namespace(elem.tag)
-                    if not namespace or namespace in self.maps.namespaces or \
-                            len(xsd_ancestors) != len(ancestors):
-                        continue
-                    parent = xsd_ancestors[-1]
-                    if not isinstance(parent, XsdElement):
-                        continue
-                    group = parent.type.model_group
-                    if group is None or \
-                            not any(isinstance(e, XsdAnyElement) and e.is_matching(elem.tag)
-                                    and e.process_contents != 'skip'
-                                    for e in group.iter_elements()) or \
-                            not self.maps.loader.load_namespace(namespace) or \
-                            elem.tag not in self.maps.elements:
-                        continue
-                    xsd_element = self.maps.elements[elem.tag]
+        try:
+            for elem in selector:
+                if elem is resource.root:
+                    if resource.lazy_depth:
+                        context.level = 0
+                        context.identities = {}
+                        context.max_depth = resource.lazy_depth
                 else:
-                    yield context.missing_element_error(validation, self, elem, path, schema_path)
+                    if prev_ancestors != ancestors:
+                        k = 0
+                        for k in range(min(len(ancestors), len(prev_ancestors))):
+                            if ancestors[k] is not prev_ancestors[k]:
+                                break
+
+                        path_ = f"{'/'.join(e.tag for e in ancestors)}/ancestor-or-self::node()"
+                        try:
+                            xsd_ancestors = cast(list[XsdElement],
+                                                 schema.findall(path_, namespaces)[1:])
+                        except ElementPathError:
+                            xsd_ancestors = []  # names of the XML data not usable in a path
+
+                        # Clear identity constraints counters
+                        for k, e in enumerate(xsd_ancestors[k:], start=k):
+                            if k >= len(ancestors):
+                                break  # more matches for a step, e.g. a group referred twice
+                            if not isinstance(e, XsdElement):
+                                continue  # an ancestor matched by a wildcard has no identities
+                            for identity in e.identities:
+                                if identity in identities:
+                                    identities[identity].reset(ancestors[k])
+                                else:
+                                    identities[identity] = identity.get_counter(ancestors[k])
+
+                        prev_ancestors = ancestors[:]
+
+                if root_by_name and elem is resource.root:
+                    # The root matches its global declaration, not the
+                    # declaration of a child that has the same name
+                    xsd_element = schema.get_element(elem.tag, namespaces=namespaces)
+                else:
+                    xsd_element = schema.get_element(elem.tag, schema_path, namespaces)
+                if xsd_element is None:
+                    if nm.XSI_TYPE in elem.attrib:
+                        xsd_element = self.builders.create_element(elem.tag, self)
+                    elif elem is not resource.root and ancestors:
+                        # Maybe matched by a wildcard, of a namespace that is loaded on demand
+                        namespace = get_namespace(elem.tag)
+                        if not namespace or namespace in self.maps.namespaces or \
+                                len(xsd_ancestors) != len(ancestors):
+                            continue
+                        parent = xsd_ancestors[-1]
+                        if not isinstance(parent, XsdElement):
+                            continue
+                        group = parent.type.model_group
+                        if group is None or \
+                                not any(isinstance(e, XsdAnyElement) and e.is_matching(elem.tag)
+                                        and e.process_contents != 'skip'
+                                        for e in group.iter_elements()) or \
+                                not self.maps.loader.load_namespace(namespace) or \
+                                elem.tag not in self.maps.elements:
+                            continue
+                        xsd_element = self.maps.elements[elem.tag]
+                    else:
+                        yield context.missing_element_error(
+                            validation, self, elem, path, schema_path
+                        )
+                        return
+
+                if context.level:
+                    # Not the root: no parent model group has set the xmlns context
+                    context.converter.set_xmlns_context(elem, context.level)
+
+                try:
+                    xsd_element.raw_decode(elem, validation, context)
+                except XMLSchemaStopValidation:
+                    pass
+
+                yield from context.errors
+                context.errors.clear()
+            else:
+                if elem is None and not allow_empty:
+                    assert path is not None
+                    reason = _("the provided path selects nothing to validate")
+                    yield context.validation_error(validation, self, reason)
                     return
-
-            if context.level:
-                # Not the root: no parent model group has set the xmlns context of the element
-                context.converter.set_xmlns_context(elem, context.level)
-
-            try:
-                xsd_element.raw_decode(elem, validation, context)
-            except XMLSchemaStopValidation:
-                pass
-
-            yield from context.errors
-            context.errors.clear()
-        else:
-            if elem is None and not allow_empty:
-                assert path is not None
-                reason = _("the provided path selects nothing to validate")
-                yield context.validation_error(validation, self, reason)
-                return
+        finally:
+            # Release a lazy resource also if the iteration is abandoned
+            cast(Generator[Any, None, None], selector).close()
 
         if context.identities is not identities:
             for identity, counter in context.identities.items():
